@@ -1,7 +1,7 @@
 """C03 — mutex: mutual exclusion and hand-off without lost or duplicated wake-ups (structural part)."""
 from core import strip, is_field, key_str, key_mentions, order_ge
 from facts import AnalysisBroken
-from rules import (check_init, nodeset, callpred, ev, Unevaluable, forced_edges, atom_from, one, some, reach, atomic_ops,
+from rules import (writer_kind, check_init, nodeset, callpred, ev, Unevaluable, forced_edges, atom_from, one, some, reach, atomic_ops,
                    ret_const, is_param_load, is_var_load, field_of)
 from props import c01
 from props import deps
@@ -241,7 +241,7 @@ def check_consumer(ctx, P):
     bad = None
     for fn in P.unique_functions():
         for s in fn.stores_to(M, "counter"):
-            kind = s.aop if s.kind in ("atomic", "sync") else "assign"
+            kind = writer_kind(s)
             if kind not in allowed.get(fn.name, ()):
                 bad = bad or ("`%s` in %s" % (s.node.text, fn.name), s.node)
     o.check(bad is None, "writers table", "unexpected writer " + (bad[0] if bad else ""), site=bad[1] if bad else None, construct="mutex counter writer")
